@@ -219,7 +219,13 @@ func (b *build) runRealCase(doc []docAgent, c realCase, n int) (sig, detail stri
 	for _, a := range append([]string{b.kessoku}, args...) {
 		quoted = append(quoted, "'"+strings.ReplaceAll(a, "'", `'\''`)+"'")
 	}
-	r := drv.Run(cwd, 2*time.Minute, []string{"HOME=" + home}, "sh", "-c", "umask "+um+"; exec "+strings.Join(quoted, " "))
+	// a third of the runs happen in a session that sets the XDG base directories and TMPDIR (inside
+	// this case's private root, so that anything written there shows up in the snapshot)
+	envv := []string{"HOME=" + home, "XDG_CONFIG_HOME=", "XDG_DATA_HOME=", "XDG_CACHE_HOME="}
+	if n%3 == 2 {
+		envv = []string{"HOME=" + home, "XDG_CONFIG_HOME=" + filepath.Join(root, "xdg", "config"), "XDG_DATA_HOME=" + filepath.Join(root, "xdg", "data"), "XDG_CACHE_HOME=" + filepath.Join(root, "xdg", "cache")}
+	}
+	r := drv.Run(cwd, 2*time.Minute, envv, "sh", "-c", "umask "+um+"; exec "+strings.Join(quoted, " "))
 	post := snapshotReal(root)
 	if r.Code == -2 {
 		drv.Broken("real CLI run timed out: %v", args)
